@@ -37,7 +37,8 @@ Section P1.
 
   (* ---------- every prior occurrence (tree, then assertions, in traversal order) ---------- *)
   Fixpoint expr_occs (e : expr) : list (nat * pspec) :=
-    match e with EPrior p sp => [(p, sp)] | EConst _ => [] | EBin _ l r => expr_occs l ++ expr_occs r end.
+    match e with EPrior p sp => [(p, sp)] | EConst _ => [] | EBin _ l r => expr_occs l ++ expr_occs r
+               | EUn _ x => expr_occs x end.
   Fixpoint assert_occs (a : assertion) : list (nat * pspec) :=
     match a with ALt l g | ALe l g => expr_occs l ++ expr_occs g | AAnd a b => assert_occs a ++ assert_occs b end.
   Fixpoint occs (n : snode) : list (nat * pspec) :=
@@ -85,6 +86,7 @@ Section P1.
       | EPrior p sp => EPrior (fst (f p sp)) (snd (f p sp))
       | EConst v => EConst v
       | EBin o l r => EBin o (emap l) (emap r)
+      | EUn o x => EUn o (emap x)
       end.
     Fixpoint amap (a : assertion) : assertion :=
       match a with
@@ -112,7 +114,7 @@ Section P1.
 
     Lemma expr_occs_emap (e : expr) : expr_occs (emap e) = map (fun ps => f (fst ps) (snd ps)) (expr_occs e).
     Proof.
-      induction e as [p sp|v|o l IHl r IHr]; simpl; [destruct (f p sp); reflexivity|reflexivity|].
+      induction e as [p sp|v|o l IHl r IHr|o x IHx]; simpl; [destruct (f p sp); reflexivity|reflexivity| |exact IHx].
       rewrite map_app, IHl, IHr. reflexivity.
     Qed.
     Lemma assert_occs_amap (a : assertion) : assert_occs (amap a) = map (fun ps => f (fst ps) (snd ps)) (assert_occs a).
@@ -137,10 +139,11 @@ Section P1.
   Lemma emap_ext (f g : nat -> pspec -> nat * pspec) (e : expr) :
     (forall p sp, In (p, sp) (expr_occs e) -> f p sp = g p sp) -> emap f e = emap g e.
   Proof.
-    induction e as [p sp|v|o l IHl r IHr]; simpl; intro H.
+    induction e as [p sp|v|o l IHl r IHr|o x IHx]; simpl; intro H.
     - rewrite (H p sp); [reflexivity|left; reflexivity].
     - reflexivity.
     - rewrite IHl, IHr; [reflexivity| |]; intros p sp Hin; apply H; apply in_or_app; auto.
+    - rewrite (IHx H). reflexivity.
   Qed.
   Lemma amap_ext (f g : nat -> pspec -> nat * pspec) (a : assertion) :
     (forall p sp, In (p, sp) (assert_occs a) -> f p sp = g p sp) -> amap f a = amap g a.
@@ -224,11 +227,12 @@ Section P1.
 
     Lemma texpr_pure (e : expr) : occs_ok (expr_occs e) -> texpr V unit fprior e tt = Ok (emap f e, tt).
     Proof.
-      induction e as [p sp|v|o l IHl r IHr]; intro H; cbn [texpr emap].
+      induction e as [p sp|v|o l IHl r IHr|o x IHx]; intro H; cbn [texpr emap].
       - rewrite (HR p sp); [reflexivity|apply H; left; reflexivity].
       - reflexivity.
       - rewrite IHl by (intros p sp Hin; apply H; simpl; apply in_or_app; auto). cbn [bind fst snd].
         rewrite IHr by (intros p sp Hin; apply H; simpl; apply in_or_app; auto). reflexivity.
+      - rewrite (IHx H). reflexivity.
     Qed.
 
     Lemma tassert_pure (a : assertion) : occs_ok (assert_occs a) -> tassert V unit fprior a tt = Ok (amap f a, tt).
@@ -304,13 +308,14 @@ Section P1.
         assert (E : forall b', ech b' (chmap f ch) = ren_attrs V s (ech b' ch)).
         { intro b'. unfold ech, chmap, ren_attrs. rewrite !map_map. apply map_ext_in. intros [nm c] Hin. simpl.
           rewrite Forall_forall in IH. pose proof (IH _ Hin b') as E0. simpl in E0. rewrite E0. reflexivity. }
-        cbn [erase]. rewrite !erase_children. destruct k as [cls ctor| |idx|o|cls ctor].
+        cbn [erase]. rewrite !erase_children. destruct k as [cls ctor| |idx|o|uo|cls ctor].
         + rewrite E. cbn [ren]. rewrite ren_attrs_eq. reflexivity.
         + rewrite E. cbn [ren]. rewrite ren_attrs_eq. reflexivity.
         + destruct b.
           * rewrite E. cbn [ren]. rewrite ren_attrs_eq. reflexivity.
           * rewrite E. cbn [ren]. rewrite ren_members_eq. rewrite zip_members_ren. reflexivity.
         + rewrite E. destruct (ech false ch) as [|[ln l] [|[rn r] [|x t]]]; try reflexivity.
+        + rewrite E. destruct (ech false ch) as [|[nm c] [|x t]]; try reflexivity.
         + rewrite E. cbn [ren]. rewrite ren_attrs_eq. reflexivity.
     Qed.
 
